@@ -255,6 +255,7 @@ func genC12(r *simrt.RNG) *Case {
 		pl.Reg = true
 	} else if r.Intn(12) == 0 {
 		pl.Fresh, pl.Struct = true, true // first-use paths (type registration) under concurrency
+		pl.Parallel = r.Bool()           // ... of the writers, or of two callers building sorters at the same time
 	}
 	oddNames(r, &pl)
 	n := r.Intn(6*pl.Chunk + 1)
@@ -378,10 +379,8 @@ func readKind(kind string) bool {
 }
 
 func exploreC13(t *testing.T, w *Worker, r *simrt.RNG) {
-	if w.unit == 0 {
-		for _, c := range bigChunkCases("C13") {
-			w.Report(c, runMorass(t, c, RunOpts{}))
-		}
+	if big := bigChunkCases("C13"); w.unit < len(big) {
+		w.Report(big[w.unit], runMorass(t, big[w.unit], RunOpts{}))
 	}
 	if r.Intn(4) == 0 {
 		c := genC13Residue(r)
@@ -482,9 +481,10 @@ func exploreC13(t *testing.T, w *Worker, r *simrt.RNG) {
 }
 
 // bigChunkCases: "any in-memory chunk size" includes sizes beyond every
-// constant an implementation may have (1024 is a favourite): once per check,
-// sorts of chunk+1 .. 2*chunk+1 values at chunk sizes 1025 and 2000, and a
-// second sort on the recycled buffers after a Clear.
+// constant an implementation may have (1024, 4096, 16384 and 65536 are
+// favourites): once per check, sorts of chunk+1, 2*chunk+1 and chunk+7 values
+// on one sorter (the later ones on recycled buffers) at chunk sizes 1025,
+// 5000, 20000 and 70000.
 func bigChunkCases(prop string) []*Case {
 	var out []*Case
 	keys := func(n int) []int {
@@ -494,16 +494,27 @@ func bigChunkCases(prop string) []*Case {
 		}
 		return k
 	}
-	for _, chunk := range []int{1025, 2000} {
+	for _, chunk := range []int{1025, 5000, 20000, 70000} {
 		for _, conc := range []bool{false, true} {
 			if prop == "C12" && !conc {
 				continue
+			}
+			if prop != "C12" && conc && chunk > 20000 {
+				continue // the largest size in one mode per check: sequential, and concurrent in C12
 			}
 			pl := MorassPlan{Chunk: chunk, Concurrent: conc, AutoClear: conc, CleanUp: true, Cycles: []MCycle{
 				{Keys: keys(chunk + 1), Drain: -1},
 				{Keys: keys(2*chunk + 1), Drain: -1},
 				{Keys: keys(chunk + 7), Drain: -1},
 			}}
+			if chunk > 20000 {
+				pl.Cycles = []MCycle{{Keys: keys(chunk + 1), Drain: -1}, {Keys: keys(chunk + 7), Drain: -1}}
+				if conc {
+					// both buffers of the rotation must have been filled once
+					pl.Cycles[0].Keys = keys(2*chunk + 1)
+				}
+				pl.NoHB = true
+			}
 			c := &Case{Prop: prop, Kind: "morass-history", Plan: marshalPlan(pl), Sched: Sched{Strategy: "rtc"}}
 			if prop == "C13" {
 				c.Kind = "morass-residue"
@@ -521,10 +532,8 @@ func init() {
 	register(&Property{
 		ID: "C11",
 		Explore: func(t *testing.T, w *Worker, r *simrt.RNG) {
-			if w.unit == 0 {
-				for _, c := range bigChunkCases("C11") {
-					w.Report(c, runMorass(t, c, RunOpts{}))
-				}
+			if big := bigChunkCases("C11"); w.unit < len(big) {
+				w.Report(big[w.unit], runMorass(t, big[w.unit], RunOpts{})) // one per unit: the workers share them
 			}
 			c := genC11(r)
 			w.Report(c, runMorass(t, c, RunOpts{}))
@@ -535,10 +544,8 @@ func init() {
 	register(&Property{
 		ID: "C12",
 		Explore: func(t *testing.T, w *Worker, r *simrt.RNG) {
-			if w.unit == 0 {
-				for _, c := range bigChunkCases("C12") {
-					w.Report(c, runMorass(t, c, RunOpts{}))
-				}
+			if big := bigChunkCases("C12"); w.unit < len(big) {
+				w.Report(big[w.unit], runMorass(t, big[w.unit], RunOpts{}))
 			}
 			c := genC12(r)
 			w.Report(c, runMorass(t, c, RunOpts{}))
